@@ -454,6 +454,9 @@ func (e *Engine) run(fr *Frame) Value {
 				e.programPanic("explicit panic: " + e.panicString(v))
 			case *ssa.If:
 				c := e.get(fr, x.Cond).(*Term)
+				if e.debug {
+					e.lastIfPos = x.Cond.Pos()
+				}
 				if !c.IsConst() && !e.noIfConv {
 					if j := e.ifConvert(fr, block, c); j != nil {
 						next = j
@@ -1044,8 +1047,14 @@ func (e *Engine) next(x *ssa.Next, it *IterV) Value {
 type specAbort struct{}
 
 type specEdge struct {
-	pred  *ssa.BasicBlock
-	guard *Term
+	pred   *ssa.BasicBlock
+	guard  *Term
+	writes map[*Cell]*Term // scalar stores performed on the way (opt-in functions only)
+}
+
+type specUndo struct {
+	c   *Cell
+	old Value
 }
 
 func (e *Engine) ifConvert(fr *Frame, block *ssa.BasicBlock, cond *Term) (join *ssa.BasicBlock) {
@@ -1086,27 +1095,34 @@ func (e *Engine) ifConvert(fr *Frame, block *ssa.BasicBlock, cond *Term) (join *
 	}
 	// only boolean joins (a && b, a || b): merged integers would flow into indices and
 	// lengths as ite terms and cost more (case splits later) than the fork saved here
+	// Functions named in cfg.IfConvFuncs opt in to merging scalar stores and integer joins as
+	// well (e.g. the zero counter of bits.EBSPReader.Read, which otherwise forks once per byte).
+	wide := e.cfg != nil && e.cfg.IfConvFuncs[block.Parent().String()]
 	nph := 0
 	for _, in := range J.Instrs {
 		phi, isPhi := in.(*ssa.Phi)
 		if !isPhi {
 			break
 		}
-		if !isBool(phi.Type()) {
+		if !isBool(phi.Type()) && !wide {
 			return nil
 		}
 		nph++
 	}
-	if nph == 0 {
+	if nph == 0 && !wide {
 		return nil
 	}
 	var edges []specEdge
+	var undo []specUndo
 	ok := true
 	func() {
 		saved := e.spec
 		e.spec = true
 		defer func() {
 			e.spec = saved
+			for k := len(undo) - 1; k >= 0; k-- {
+				undo[k].c.v = undo[k].old
+			}
 			if r := recover(); r != nil {
 				if _, isAbort := r.(specAbort); isAbort {
 					ok = false
@@ -1118,7 +1134,14 @@ func (e *Engine) ifConvert(fr *Frame, block *ssa.BasicBlock, cond *Term) (join *
 		var walk func(from, b *ssa.BasicBlock, guard *Term, depth int)
 		walk = func(from, b *ssa.BasicBlock, guard *Term, depth int) {
 			if b == J {
-				edges = append(edges, specEdge{from, guard})
+				ed := specEdge{pred: from, guard: guard}
+				if len(undo) > 0 {
+					ed.writes = map[*Cell]*Term{}
+					for _, u := range undo {
+						ed.writes[u.c] = u.c.v.(*Term)
+					}
+				}
+				edges = append(edges, ed)
 				return
 			}
 			if depth > 4 || len(b.Preds) != 1 || len(b.Instrs) > 24 {
@@ -1161,6 +1184,23 @@ func (e *Engine) ifConvert(fr *Frame, block *ssa.BasicBlock, cond *Term) (join *
 						panic(specAbort{})
 					}
 					e.set(fr, x, e.callCommon(fr, &x.Call))
+				case *ssa.Store:
+					if !wide {
+						panic(specAbort{})
+					}
+					ptr, isP := e.get(fr, x.Addr).(Ptr)
+					val, isT := e.get(fr, x.Val).(*Term)
+					if !isP || !isT || ptr.c == nil || ptr.sym != nil || ptr.arr != nil {
+						panic(specAbort{})
+					}
+					if _, oldT := ptr.c.v.(*Term); !oldT {
+						panic(specAbort{})
+					}
+					if ptr.hdr != nil && (ptr.hdr.shared || ptr.hdr.global) {
+						panic(specAbort{})
+					}
+					undo = append(undo, specUndo{ptr.c, ptr.c.v})
+					ptr.c.v = val
 				case *ssa.Jump:
 					walk(b, b.Succs[0], guard, depth+1)
 					return
@@ -1177,8 +1217,26 @@ func (e *Engine) ifConvert(fr *Frame, block *ssa.BasicBlock, cond *Term) (join *
 					if b.Succs[0] == b.Succs[1] {
 						panic(specAbort{})
 					}
-					walk(b, b.Succs[0], e.ts.And(guard, c), depth+1)
-					walk(b, b.Succs[1], e.ts.And(guard, e.ts.Not(c)), depth+1)
+					mark := len(undo)
+					g0, g1 := e.ts.And(guard, c), e.ts.And(guard, e.ts.Not(c))
+					// opt-in functions: a side that the path condition excludes is not walked
+					// (it may contain calls that would abort the conversion)
+					skip0 := wide && e.check(g0) == "unsat"
+					skip1 := wide && !skip0 && e.check(g1) == "unsat"
+					if !skip0 {
+						walk(b, b.Succs[0], g0, depth+1)
+					}
+					for k := len(undo) - 1; k >= mark; k-- {
+						undo[k].c.v = undo[k].old
+					}
+					undo = undo[:mark]
+					if !skip1 {
+						walk(b, b.Succs[1], g1, depth+1)
+					}
+					for k := len(undo) - 1; k >= mark; k-- {
+						undo[k].c.v = undo[k].old
+					}
+					undo = undo[:mark]
 					return
 				default:
 					panic(specAbort{})
@@ -1187,7 +1245,15 @@ func (e *Engine) ifConvert(fr *Frame, block *ssa.BasicBlock, cond *Term) (join *
 			panic(specAbort{})
 		}
 		walk(block, s0, cond, 0)
+		for k := len(undo) - 1; k >= 0; k-- {
+			undo[k].c.v = undo[k].old
+		}
+		undo = undo[:0]
 		walk(block, s1, e.ts.Not(cond), 0)
+		for k := len(undo) - 1; k >= 0; k-- {
+			undo[k].c.v = undo[k].old
+		}
+		undo = undo[:0]
 	}()
 	if !ok || len(edges) < 2 {
 		return nil
@@ -1244,6 +1310,29 @@ func (e *Engine) ifConvert(fr *Frame, block *ssa.BasicBlock, cond *Term) (join *
 	}
 	for pi, phi := range phis {
 		e.set(fr, phi, vals[pi])
+	}
+	// merged stores: new = ite(guard_k, value written on edge k (or the old value), ...)
+	written := map[*Cell]bool{}
+	var order []*Cell
+	for _, ed := range edges {
+		for c := range ed.writes {
+			if !written[c] {
+				written[c] = true
+				order = append(order, c)
+			}
+		}
+	}
+	for _, c := range order {
+		old := c.v.(*Term)
+		acc := old
+		for k := len(edges) - 1; k >= 0; k-- {
+			v := old
+			if w, has := edges[k].writes[c]; has {
+				v = w
+			}
+			acc = e.ts.Ite(edges[k].guard, v, acc)
+		}
+		c.v = acc
 	}
 	e.stats.IfConverted++
 	return J
